@@ -188,6 +188,8 @@ def run_padding_part(chk):
     from ..segmodel import SegmentModel
     from . import c01
     m = SegmentModel(chk.ix, chk.cg)
+    if m.error is not None and not chk.violations():
+        raise m.error
     n0 = len(chk.obs)
     c01.r01_5_segments(chk, m)
     keep = []
